@@ -8,7 +8,8 @@ LEVEL = "proof"
 
 def programs(ctx):
     specs = [("tuple", "u8", False, ""), ("named", "u8", False, ""), ("tuple", "(u8, u8)", False, ""), ("named", "[u8; 2]", False, ""),
-             ("tuple", "W<u8>", True, ""), ("named", "Option<u8>", True, "T: Copy"), ("tuple", "u8", True, "T: Copy + core::fmt::Debug")]
+             ("tuple", "W<u8>", True, ""), ("named", "Option<u8>", True, "T: Copy"), ("tuple", "u8", True, "T: Copy + core::fmt::Debug"),
+             ("tuple", "&'static u8", False, ""), ("named", "&'static u8", False, "")]
     return [fam2.c18_prog("p_%04d" % i, *s) for i, s in enumerate(specs)]
 
 
